@@ -218,3 +218,77 @@ func nondetOneOf(tag string, lits string) string {
 	}
 	return lits[:0]
 }
+
+// ---- abstract byte streams (native implementation: real bytes) -------------------
+
+type vStreamT struct {
+	buf    []byte
+	closed bool
+}
+
+var vStreams []*vStreamT
+
+func vStreamNew(tag string) int {
+	vStreams = append(vStreams, &vStreamT{})
+	return len(vStreams) - 1
+}
+
+// vStreamPut makes one frame (JSON text b padded with leading blanks to size bytes, the last one a newline) available.
+func vStreamPut(s int, b []byte, size int) {
+	if size < len(b)+1 {
+		vEmit("X:assumption-violated:frame-size")
+		size = len(b) + 1
+	}
+	st := vStreams[s]
+	for i := 0; i < size-len(b)-1; i++ {
+		st.buf = append(st.buf, ' ')
+	}
+	st.buf = append(st.buf, b...)
+	st.buf = append(st.buf, '\n')
+}
+
+func vStreamPutGarbage(s int, size int) {
+	st := vStreams[s]
+	for i := 0; i < size; i++ {
+		st.buf = append(st.buf, '#')
+	}
+}
+
+func vStreamClose(s int)     { vStreams[s].closed = true }
+func vStreamAvail(s int) int { return len(vStreams[s].buf) }
+func vStreamEOF(s int) bool  { return vStreams[s].closed && len(vStreams[s].buf) == 0 }
+
+// vStreamRead delivers between 1 and min(len(p), available) bytes into p (0 when nothing is available).
+func vStreamRead(s int, p []byte, tag string) int {
+	st := vStreams[s]
+	if len(st.buf) == 0 || len(p) == 0 {
+		return 0
+	}
+	n := nondetInt(tag)
+	if n < 1 {
+		n = 1
+	}
+	if n > len(p) {
+		n = len(p)
+	}
+	if n > len(st.buf) {
+		n = len(st.buf)
+	}
+	copy(p, st.buf[:n])
+	st.buf = st.buf[n:]
+	return n
+}
+
+func vAbuf(n int) []byte { return make([]byte, n) }
+
+// vStreamReadAll delivers min(len(p), available) bytes.
+func vStreamReadAll(s int, p []byte) int {
+	st := vStreams[s]
+	n := len(p)
+	if n > len(st.buf) {
+		n = len(st.buf)
+	}
+	copy(p, st.buf[:n])
+	st.buf = st.buf[n:]
+	return n
+}
